@@ -18,7 +18,7 @@ var c14Seps = []string{"", " ", "\n", "\t ", " ", " ", ";c\n", ";; (x) \"\n"}
 
 // further Unicode spaces, each tried in every gap of every source (alone and
 // together with one other non-default gap)
-var c14Exotic = []string{"\v", "\f", "\r", "\r\n", "\t", "", " ", " ", " ", " ", " ", "　", " \t\n\v\f\r "}
+var c14Exotic = []string{";é\n", ";; 成年人的下限\n", ";;😀😀 x\n", " ;ü\n ", "\v", "\f", "\r", "\r\n", "\t", "", " ", " ", " ", " ", " ", "　", " \t\n\v\f\r "}
 
 func c14Alphabet() *term.Alphabet {
 	S, SL := term.TS, term.TSL
@@ -381,6 +381,19 @@ func c14Directives(r *rep.Run, w *c14worker) {
 				n++
 				if got := c14Sig(w, false, v); got != want {
 					r.Violate("directive-layout", o.String(), "layout around leading directive comments changes the compiled program", map[string]interface{}{"source": v, "got": got, "want": want})
+				}
+			}
+			// ordinary header comments that merely CONTAIN the directive marker
+			for _, mid := range []string{";; to debug, put this first: ;;;; optimize: false\n", "; x;;;;optimize:false\n", ";; ---- section ;;;; ----\n", ";;; ;;;; reordering:false, constant_folding:false\n", ";; ;;;;bogus:true\n"} {
+				n++
+				if got := c14Sig(w, false, mid+d+body); got != want {
+					r.Violate("directive-layout", "mid"+o.String(), "an ordinary comment that contains the directive marker in its text changes the compiled program", map[string]interface{}{"source": mid + d + body, "got": got, "want": want})
+				}
+				if b == 15 && st == 1 {
+					n++
+					if got := c14Sig(w, false, mid+body); got != plain {
+						r.Violate("directive-layout", "mid-alone", "an ordinary comment that contains the directive marker in its text is taken for a directive", map[string]interface{}{"source": mid + body, "got": got, "want": plain})
+					}
 				}
 			}
 			// after the first token the same text must be ignored
